@@ -503,3 +503,47 @@ def wavelet_obj(prefix='', Lc=None, with_rec=True):
     for nm in ('dec_lo', 'dec_hi', 'rec_lo', 'rec_hi'):
         w.a[nm] = np1d(prefix + nm, Lc)
     return w
+
+
+# ---------------------------------------------------------------------------
+# non-separable one-level bank
+# ---------------------------------------------------------------------------
+def _prep_nonsep(flip):
+    def contract(it, c0, c1, r0=None, r1=None, device=None):
+        """filts[band, 0, a, q] = f_col[band][a'] * f_row[band][q'] with bands
+        (ll, lh, hl, hh) = (c0 r0, c1 r0, c0 r1, c1 r1); analysis: a' = Ly-1-a, q' = Lx-1-q"""
+        c0, c1 = _flat(c0), _flat(c1)
+        if r0 is None:
+            r0 = c0
+        else:
+            r0 = _flat(r0)
+        if r1 is None:
+            r1 = c1
+        else:
+            r1 = _flat(r1)
+        Ly, Lx = c0.shape[0], r0.shape[0]
+        ctx().require('prep-nonsep-pre:equal column lengths', I(c1.shape[0]) == I(Ly))
+        ctx().require('prep-nonsep-pre:equal row lengths', I(r1.shape[0]) == I(Lx))
+        cs = [c0.snap(), c1.snap()]
+        rs = [r0.snap(), r1.snap()]
+        pairs = [(0, 0), (1, 0), (0, 1), (1, 1)]
+
+        def elem(idx):
+            b_, _, a, q = idx
+            ai = simp(I(Ly) - 1 - I(a)) if flip else a
+            qi = simp(I(Lx) - 1 - I(q)) if flip else q
+            out = ZERO
+            for k, (ci, ri) in enumerate(pairs):
+                g = simp(I(b_) == k)
+                if g is False:
+                    continue
+                out = out + (cs[ci]([ai]) * rs[ri]([qi])).guard(g)
+            return out
+        return STensor((4, 1, Ly, Lx), elem, meta=dict(kind='torch', dtype=prims.DT_DEFAULT, contig=True))
+    return contract
+
+
+prep_filt_afb2d_nonsep_contract = _prep_nonsep(True)
+prep_filt_sfb2d_nonsep_contract = _prep_nonsep(False)
+CONTRACTS['dwt.lowlevel:prep_filt_afb2d_nonsep'] = prep_filt_afb2d_nonsep_contract
+CONTRACTS['dwt.lowlevel:prep_filt_sfb2d_nonsep'] = prep_filt_sfb2d_nonsep_contract
